@@ -676,11 +676,14 @@ Section Main.
 
   (** Renumbering leaves the module token-identical: same-path families and recursive
       derives included. *)
-  Theorem permutation_tokens teq teq' m1 m2 :
+  Lemma permutation_items teq teq' m1 m2 :
     skeleton_consistent r s -> docs_consistent r s -> derives_functional s ->
     generate r s teq = Ok m1 ->
     generate r' s teq' = Ok m2 ->
-    emit_module s m1 = emit_module s m2.
+    (forall p id ir, items_get m1 p = Some (id, ir) ->
+       exists id2 ir2, items_get m2 p = Some (id2, ir2) /\
+                       type_ir_tokens s ir = type_ir_tokens s ir2) /\
+    (forall p id2 ir2, items_get m2 p = Some (id2, ir2) -> exists v, items_get m1 p = Some v).
   Proof.
     intros Hsk Hdc Hdf G1 G2.
     assert (Hc : ids_consistent r = true).
@@ -731,6 +734,22 @@ Section Main.
       change (t_path (rename_ty pi t2)) with (t_path t2) in Hp2. rewrite <- Hp2.
       eapply (gen_loop_complete r s teq flat1 r [] m1 H1 i2 t2 ira Hin2); [|exact Hca].
       exact Hel2. }
+    split; assumption.
+  Qed.
+
+  Theorem permutation_tokens teq teq' m1 m2 :
+    skeleton_consistent r s -> docs_consistent r s -> derives_functional s ->
+    generate r s teq = Ok m1 ->
+    generate r' s teq' = Ok m2 ->
+    emit_module s m1 = emit_module s m2.
+  Proof.
+    intros Hsk Hdc Hdf G1 G2.
+    destruct (permutation_items teq teq' m1 m2 Hsk Hdc Hdf G1 G2) as [K K'].
+    pose proof G1 as H1. pose proof G2 as H2. unfold generate in H1, H2.
+    apply bind_ok in H1 as (u1 & _ & H1). apply bind_ok in H1 as (flat1 & Hf1 & H1).
+    apply bind_ok in H2 as (u2 & _ & H2). apply bind_ok in H2 as (flat2 & Hf2 & H2).
+    assert (S1 : items_sorted m1) by (eapply gen_loop_sorted; [apply items_sorted_nil|exact H1]).
+    assert (S2 : items_sorted m2) by (eapply gen_loop_sorted; [apply items_sorted_nil|exact H2]).
     apply emit_module_ext.
     apply (sorted_items_rel
              (fun v1 v2 => type_ir_tokens s (snd v1) = type_ir_tokens s (snd v2)) m1 m2 S1 S2).
